@@ -1,2 +1,76 @@
-(* C02 statements; proofs in Proofs/. *)
-From BaoV Require Import Model.Fsm Spec.EncSpec.
+(* C02 statements: the decode side of the round trip, end to end.  The decoders are set up for
+   (root hash of the blob, tree of the blob, q) and read the honest encoding honest HO data bs q of
+   Spec/EncSpec.v followed by arbitrary further bytes.  Proofs in Proofs/E2E*.v (composition of the
+   Bridge, C15 and C01 layers).  That the encoders produce flat HO (honest HO data bs q) is the
+   encode side (not stated here). *)
+From BaoV Require Import Model.Fsm Spec.EncSpec Spec.HashAssm Spec.RangeSpec.
+From BaoV Require Import Proofs.DecForest Proofs.DecRanges Proofs.BridgeLeaves.
+From BaoV Require Import Proofs.E2EGlue Proofs.E2EDecode Proofs.E2ERanges Proofs.E2EMisc.
+
+(* decoding the honest encoding yields exactly the honest items, finishes, and leaves what follows unread *)
+Theorem C02_roundtrip_sync : forall HO, hash_ok HO ->
+  forall (data : bytes HO) (bs : N) (q : ranges),
+  (blen HO data <= 2 ^ 63)%N -> (bs <= 10)%N -> wf_ranges q = true -> q <> [] ->
+  forall rest : bytes HO,
+  exists st,
+    dec_run HO (dec_new HO (root_hash HO data) (mkTree (blen HO data) bs)
+                        (flat HO (honest HO data bs q) ++ rest) q)
+      = (honest HO data bs q, Finished, st) /\
+    d_enc HO st = rest.
+Proof. exact e2e_roundtrip_sync. Qed.
+Print Assumptions C02_roundtrip_sync.
+
+Theorem C02_roundtrip_fsm : forall HO, hash_ok HO ->
+  forall (data : bytes HO) (bs : N) (q : ranges),
+  (blen HO data <= 2 ^ 63)%N -> (bs <= 10)%N -> wf_ranges q = true -> q <> [] ->
+  forall rest : bytes HO,
+  exists st,
+    rd_run HO (rd_new HO (root_hash HO data) q (mkTree (blen HO data) bs)
+                      (flat HO (honest HO data bs q) ++ rest))
+      = (honest HO data bs q, Finished, st) /\
+    Fsm.r_enc HO st = rest /\ rd_finish HO st = rest.
+Proof. exact e2e_roundtrip_fsm. Qed.
+Print Assumptions C02_roundtrip_fsm.
+
+(* decode_ranges on the honest encoding applies all honest items (apply_items, Props/C01.v); with
+   saves that succeed the result is Ok and the target is write_leaves target (honest ..) *)
+Theorem C02_roundtrip_decode_ranges : forall HO, hash_ok HO ->
+  forall (data : bytes HO) (bs : N) (q : ranges),
+  (blen HO data <= 2 ^ 63)%N -> (bs <= 10)%N -> wf_ranges q = true -> q <> [] ->
+  forall (rest target : bytes HO) (ob : outboard HO),
+  ob_root ob = root_hash HO data -> ob_tree ob = mkTree (blen HO data) bs ->
+  let a := apply_items HO (honest HO data bs q) target ob in
+  (exists st', decode_ranges HO (flat HO (honest HO data bs q) ++ rest) q target ob =
+               (ranges_result (a_res HO a) Finished, a_target HO a, a_ob HO a, st')) /\
+  (exists st', decode_ranges_fsm HO (flat HO (honest HO data bs q) ++ rest) q target ob =
+               (ranges_result (a_res HO a) Finished, a_target HO a, a_ob HO a, st')).
+Proof. exact e2e_decode_ranges_roundtrip. Qed.
+Print Assumptions C02_roundtrip_decode_ranges.
+
+(* the leaves of the honest encoding, written into any target of the blob's length (write_leaves,
+   Props/Bridge.v), deliver exactly the selection: the result agrees with the blob on every selected
+   chunk and with the old target on every other chunk; each leaf is the run [s, e) of selected chunks
+   of one chunk group, at byte offset s * 1024 *)
+Theorem C02_delivers_selection : forall HO (data target : bytes HO) (bs : N) (q : ranges),
+  (blen HO data <= 2 ^ 63)%N -> length target = length data ->
+  let size := blen HO data in
+  let out := write_leaves HO target (honest HO data bs q) in
+  (blen HO out = size /\
+   forall c, (c < nchunks size)%N ->
+     chunk_bytes HO out c (c + 1) =
+     if sel q size c then chunk_bytes HO data c (c + 1) else chunk_bytes HO target c (c + 1)) /\
+  (forall off d, In (ILeaf off d) (honest HO data bs q) ->
+     exists s e, (off = s * 1024 /\ s < e /\ e <= nchunks size /\ e - s <= 2 ^ bs)%N /\
+                 d = chunk_bytes HO data s e /\ (forall c, (s <= c < e)%N -> sel q size c = true)).
+Proof. exact e2e_delivers_selection. Qed.
+Print Assumptions C02_delivers_selection.
+
+(* the empty query: nothing is encoded, the plan is empty (pp_new pushes nothing), both decoders
+   finish immediately without consuming anything - for any root, tree and stream *)
+Theorem C02_empty_query : forall HO (data stream : bytes HO) (bs : N) (root : hash HO) (t : tree),
+  honest HO data bs [] = [] /\
+  response_iter t [] = [] /\
+  (exists st, dec_run HO (dec_new HO root t stream []) = ([], Finished, st) /\ d_enc HO st = stream) /\
+  (exists st, rd_run HO (rd_new HO root [] t stream) = ([], Finished, st) /\ Fsm.r_enc HO st = stream).
+Proof. exact e2e_empty_query. Qed.
+Print Assumptions C02_empty_query.
